@@ -129,6 +129,28 @@ CHECKS = {
        "the level choice of the per-strand dot-bracket comes from the MILP solver (relational, via C01/C02); Lean reasons about tokens.",
   technique="Lean 4 proof (conflict-resolution loop invariant, numbering, row allocation) + functional/spec correspondence on corpus and synthetic structures × random pair lists",
   ref="9/C06"),
+ "C09": dict(
+  text="Lean theorems (Props.C09) about a model of parser_v2's PDB writer/reader and PDB⇄mmCIF row maps with fixed-point numbers: "
+       "formatAtom_len80, formatTer_len80, field placement (formatAtom_fields); MAIN parseV2_formatAtom (WithinPdbLimits a → reading the "
+       "written line gives back all 16 fields; 1–4 character names with the alignment rule, 2-letter elements, negative numbers, charge n±); "
+       "writePdb_structure (MODEL/ENDMDL around every model, TER after every chain — with the writer's behaviour flag regenerated from "
+       "the source; the pre-fix writer is proved to violate it on a two-row witness); pdb_pdb / pdb_cif_pdb / cif_pdb_cif round trips; "
+       "bridges: reader slices = writer offsets = PDB column layout, widths and limits, mmCIF columns and null markers.",
+  note="Assumed and validated differentially: Python's ':8.3f' / ':6.2f' of the double nearest to k/1000 prints k/1000 and to_numeric reads "
+       "it back; pandas dtypes; the mmcif tokeniser and quoting. mmCIF→mmCIF has no Lean model beyond null markers (correspondence only). "
+       "Charge 0 is identified with absent; literal '?'/'.' values are outside the quantifier.",
+  technique="Lean 4 proof (fixed-column format/parse inverse, document structure) + byte-level writer comparison and four round-trip paths through the real code",
+  ref="9/C09"),
+ "C10": dict(
+  text="Lean theorems (Props.C10) about a model of can_write_pdb / fit_to_pdb: fit_id (already fitting ⇒ unchanged), "
+       "fit_ok_satisfies_limits, fit_ok_preserves_rows (order, names, coordinates, all other fields), fit_chain_map_injective, "
+       "fit_residue_map_injective_per_chain, fit_grouping_preserved, fit_refuses_iff (exact characterisation of the ValueError cases as "
+       "read from the code, incl. the rows+chain-changes safeguard), fit_total (no other error), fit_then_write_read (via C09). "
+       "Limits 99999 / 9999 / 62-letter chain alphabet are regenerated and pinned by bridges.",
+  note="pandas behaviour (dtypes, groupby) is covered by the correspondence only; the soundness of the executable spec checker against "
+       "the theorems is cross-checked with an independent Python evaluator, not proved.",
+  technique="Lean 4 proof (first-seen renaming maps, limits) + correspondence on generated overflow tables (multi-character chains, >9999 residues, >99999 atoms, >62 chains)",
+  ref="9/C10"),
 }
 
 NOT_YET = {}
